@@ -168,9 +168,9 @@ func (e *Engine) Monitor(tx *bbolt.Tx) []Disc {
 			}
 		}
 		// absent ids are absent through every store
-		pool := DeptIds
+		pool := e.DeptPool
 		if root == Emps {
-			pool = EmpIds
+			pool = e.EmpPool
 		}
 		for _, id := range pool {
 			if _, ok := m.Ents[root][id]; ok {
@@ -319,7 +319,7 @@ func (e *Engine) Monitor(tx *bbolt.Tx) []Disc {
 			if !eqStrs(got, exp) {
 				add(Disc{Kind: "api-related-list", Store: Depts, Symbol: "members", Id: d, Exp: fmt.Sprintf("%q", exp), Act: fmt.Sprintf("%q", got)})
 			}
-			for _, eid := range EmpIds {
+			for _, eid := range e.EmpPool {
 				want := false
 				for _, x := range exp {
 					if x == eid {
@@ -381,9 +381,9 @@ func (e *Engine) Monitor(tx *bbolt.Tx) []Disc {
 					if !eqStrs(it, exp) {
 						add(Disc{Kind: "api-iteratelinks", Store: t, Symbol: field, Id: id, Exp: fmt.Sprintf("%q", exp), Act: fmt.Sprintf("%q", it)})
 					}
-					opool := DeptIds
+					opool := e.DeptPool
 					if t == Depts {
-						opool = EmpIds
+						opool = e.EmpPool
 					}
 					for _, o := range opool {
 						want := false
